@@ -8,6 +8,9 @@ from sim.config import build
 from sim.play import cards_str
 from sim.snapshot import apply_record, snapshot
 
+from fractions import Fraction
+from ref import settle as rs
+
 from pokerkit import Mode
 
 ID = 'C12'
@@ -24,6 +27,11 @@ RULE = ('one run = a pair of executions: AUTO, a simulated hand (all variants in
         'pushing and pulling whatever it decides. Final payoffs must be equal, every player awarded chips in TWIN was '
         'neither mucked nor killed in AUTO, and - fault injection - at every showdown state of a tournament-mode hand a '
         'partial show is requested for each player still to show and must be refused without changing the state. '
+        'Independently of the engine\'s own can-win test, the settlement model (ref/settle.py with ref/evalhand.py) is '
+        'evaluated with every player who did not fold tabling the cards he held when the showdown began: a player the '
+        'engine mucked or killed must be owed nothing there, and what the engine pushed must equal that settlement '
+        '(exactly under exact division, within the odd chips otherwise). A third of the runs seat short stacks (side '
+        'pots), a third play hi-lo / multi-board games. '
         'non-trivial = showdown with >= 2 players and at least one automatic muck or kill; distinct = distinct '
         '(configuration class, operation-class sequence) digests')
 ASSUMPTIONS = [
@@ -32,6 +40,97 @@ ASSUMPTIONS = [
 ]
 BIAS = dict(custom_num=1, chips=('int', 'fraction'), rakes=('none',), sbcs=(1, 1, 2), min_players=2,
             stack_pool=(20, 40, 40, 100, 100, 200, 8, 13))
+
+
+class TableAll(Monitor):
+    """Independent statement of "every remaining player tables his full hand": R-SETTLE (ref/settle.py, R-EVAL hands)
+    over the players who did not fold, with the cards they held when the showdown began.  Unlike the twin it does
+    not use the engine's own can-win test, so it also sees a defect that twin and original share."""
+
+    def __init__(self, cfg):
+        self.cfg = cfg
+        self.init = False
+
+    def start(self, st):
+        self.init = True
+        n = self.n = st.player_count
+        self.contrib = [Fraction(0)] * n
+        self.antes = [Fraction(0)] * n
+        self.ante_bets = [Fraction(0)] * n
+        self.collections = 0
+        self.folded = [False] * n
+        self.hands = [[] for _ in range(n)]
+        self.mucked = []
+        self.killed = []
+        self.pushed = [Fraction(0)] * n
+        self.unknown = False
+
+    def on_op(self, world, st, op):
+        if not self.init:
+            self.start(st)
+        t = type(op).__name__
+        n = self.n
+        if t == 'AntePosting':
+            self.ante_bets[op.player_index] += Fraction(op.amount)
+        elif t == 'BetCollection':
+            first = self.collections == 0 and any(self.ante_bets)
+            for i in range(n):
+                self.contrib[i] += Fraction(op.bets[i])
+                if first:
+                    self.antes[i] = Fraction(op.bets[i])
+            self.ante_bets = [Fraction(0)] * n
+            self.collections += 1
+        elif t == 'Folding':
+            self.folded[op.player_index] = True
+        elif t == 'HoleCardsShowingOrMucking':
+            if op.hole_cards:
+                self.hands[op.player_index] = list(op.hole_cards)
+            else:
+                self.mucked.append(op.player_index)
+        elif t == 'HandKilling':
+            self.killed.append(op.player_index)
+        elif t == 'ChipsPushing':
+            for i in range(n):
+                self.pushed[i] += Fraction(op.amounts[i])
+        if t in ('HoleDealing', 'StandingPatOrDiscarding', 'BoardDealing', 'CardBurning'):
+            for i in range(n):
+                if st.hole_cards[i] and not self.folded[i] and i not in self.mucked and i not in self.killed:
+                    self.hands[i] = list(st.hole_cards[i])
+
+    def on_end(self, world):
+        st = world.state
+        if not self.init or not any(self.pushed):
+            return
+        n = self.n
+        live = [not f for f in self.folded]
+        if sum(live) < 2:
+            return
+        if any(c.unknown_status for i in range(n) if live[i] for c in self.hands[i]):
+            return
+        boards = [list(st.get_board_cards(b)) for b in st.board_indices]
+        types = [h.__name__ for h in st.hand_types]
+        layers = rs.layers_of(self.contrib, self.antes, live, st.ante_trimming_status)
+        award = rs.settle(layers, live, types, self.hands, boards)
+        world.ctx.count('table_all_settlements')
+        out = sorted(set(self.mucked + self.killed))
+        for i in out:
+            if award[i] > 0:
+                raise Violation('C12.lost', f'player {i} was {"mucked" if i in self.mucked else "killed"} by the engine but with '
+                                f'every remaining player tabling his hand he wins {award[i]}: hands '
+                                f'{[(j, self.hands[j]) for j in range(n) if live[j]]} boards {boards} pot layers '
+                                f'{[(str(a), e) for a, e in layers]}', rule='lost')
+        exact = self.cfg['divmod'] == 'exact'        # otherwise every sub-split may leave odd chips with the first winner
+        if exact:
+            if self.pushed != award:
+                raise Violation('C12.award', f'the engine pushed {[str(x) for x in self.pushed]}; every remaining player tabling '
+                                f'his hand gives {[str(x) for x in award]}', rule='award')
+        else:
+            nb, nt, k = len(boards), len(types), sum(live)
+            slack = len(layers) * ((nb - 1) + nb * (nt - 1) + nb * nt * (k - 1))
+            for i in range(n):
+                if abs(self.pushed[i] - award[i]) > slack:
+                    raise Violation('C12.award', f'player {i} is pushed {self.pushed[i]}, every remaining player tabling his '
+                                    f'hand gives {award[i]} (allowed deviation {slack} odd chips)', rule='award')
 
 
 class PartialShowAdversary(Monitor):
@@ -116,12 +215,24 @@ def twin_check(world, ctx):
 
 
 def run(ch, ctx):
-    cfg = gen_config(ch, BIAS)
+    bias = dict(BIAS)
+    if ch.chance('c12.short', 1, 3):
+        # side pots: one or two players are short, so that a hand can be live for one pot and dead for another
+        bias['stack_pool'] = (1, 2, 3, 5, 40, 100, 100, 200)
+        bias['min_players'] = 3
+        ctx.count('short_stack_runs')
+    if ch.chance('c12.split', 1, 3):
+        bias['variants'] = ('FO8', 'F7S8', 'XO5', 'XSHL', 'PO', 'NT')     # hi-lo and several boards / run-outs
+        bias['sbcs'] = (1, 2, 2)
+    cfg = gen_config(ch, bias)
+    if cfg['chip'] == 'fraction':
+        cfg['divmod'] = 'exact'
     adv = PartialShowAdversary()
+    table = TableAll(cfg)
     world = None
     run_key = run_key_of(ch)
     try:
-        world = World(ch, ctx, cfg, [adv], run_key=run_key, muck_num=0, partial_show=False,
+        world = World(ch, ctx, cfg, [adv, table], run_key=run_key, muck_num=0, partial_show=False,
                       profile=ch.choice('c12.profile', ('passive', 'passive', 'balanced')),
                       dealer=ch.choice('c12.dealer', ('engine', 'explicit')))
         world.run_key = run_key
